@@ -1765,6 +1765,10 @@ class Interp:
         if isinstance(target, ast.Name):
             self.st.env[target.id] = v
             return
+        if isinstance(target, (ast.Tuple, ast.List)) and any(
+                isinstance(e, ast.Starred) for e in target.elts):
+            self.assign_starred(target, v, node)
+            return
         if isinstance(target, (ast.Tuple, ast.List)):
             items = self.unpack(v, len(target.elts), node)
             for t, x in zip(target.elts, items):
@@ -1780,6 +1784,31 @@ class Interp:
             self.setitem(obj, key, v, node)
             return
         raise Unsupported(f"assignment target {_src(target)}")
+
+    def assign_starred(self, target, v, node):
+        k = next(i for i, e in enumerate(target.elts) if isinstance(e, ast.Starred))
+        before, after = target.elts[:k], target.elts[k + 1:]
+        star = target.elts[k].value
+        if isinstance(v, VTuple) or (isinstance(v, VList) and self.st.lists[v.oid].items is not None):
+            items = list(v.items) if isinstance(v, VTuple) else list(self.st.lists[v.oid].items)
+            if len(items) < len(before) + len(after):
+                self.throw(ValueError, node, "SAFE-Unpack")
+            for t, x in zip(before, items):
+                self.assign(t, x, node)
+            self.assign(star, self.new_list(items[len(before): len(items) - len(after)]), node)
+            for t, x in zip(after, items[len(items) - len(after):]):
+                self.assign(t, x, node)
+            return
+        if isinstance(v, VList):
+            L = self.st.lists[v.oid]
+            self.guard(L.len >= len(before) + len(after), ValueError, node, "SAFE-Unpack")
+            for i, t in enumerate(before):
+                self.assign(t, self.world.list_item(self, v, L, z3.IntVal(i), node), node)
+            self.assign(star, self.slice(v, z3.IntVal(len(before)), L.len - len(after), node), node)
+            for i, t in enumerate(after):
+                self.assign(t, self.world.list_item(self, v, L, L.len - len(after) + i, node), node)
+            return
+        raise Unsupported(f"starred unpacking of {v!r}")
 
     def unpack(self, v, n, node):
         if isinstance(v, VTuple):
